@@ -107,7 +107,8 @@ static void do_dump(void)
     case eslARG_CHAR: if (on) sprintf(typed, "c%d", (int)(unsigned char) esl_opt_GetChar(G, nm)); else strcpy(typed, "c~"); break;
     default:          { char *s = esl_opt_GetString(G, nm); snprintf(typed, sizeof(typed), "s%d", s ? (int) strlen(s) : -1); } break;
     }
-    APP("%s%s/%d/%d%d%d/%s", i ? ";" : "", valrepr(G->val[i]), esl_opt_GetSetter(G, nm),
+    /* a boolean's stored value is an internal marker (default string or (char*)TRUE): only on/off is observable */
+    APP("%s%s/%d/%d%d%d/%s", i ? ";" : "", T[i].type == eslARG_NONE ? (G->val[i] ? "1" : "~") : valrepr(G->val[i]), esl_opt_GetSetter(G, nm),
         esl_opt_IsDefault(G, nm) ? 1 : 0, on ? 1 : 0, esl_opt_IsUsed(G, nm) ? 1 : 0, typed);
   }
   h_out("%s", buf);
